@@ -694,7 +694,14 @@ pub fn apply(s: &mut Incent, step: &Step, ctx: &mut Ctx) {
     if let Op::ClaimMarathon { gap, rounds } = &step.op {
         let sub = |actor: usize, op: Op| Step { actor, op, adv_s: 0, fault: Fault::None };
         let stakers: Vec<usize> = (0..s.cfg.n_users).filter(|i| !s.obs.open[*i].is_empty()).collect();
-        apply(s, &sub(step.actor, Op::NewEpoch { n: *gap }), ctx);
+        // the gap: every epoch gets its global-weight snapshot (otherwise nothing is emitted for it)
+        for _ in 0..*gap {
+            if ctx.stopped() {
+                return;
+            }
+            apply(s, &sub(step.actor, Op::NewEpoch { n: 1 }), ctx);
+            apply(s, &sub(step.actor, Op::Snapshot), ctx);
+        }
         for round in 0..=*rounds {
             if ctx.stopped() {
                 return;
